@@ -1022,6 +1022,12 @@ class SI(_Num):
     def var(name):
         return SI(z3.Int(name))
 
+    @staticmethod
+    def lift(x):
+        if isinstance(x, SI):
+            return x
+        return SI(z3.IntVal(int(x)))
+
     def _c(self, o):
         if isinstance(o, SI):
             return o.t
